@@ -491,7 +491,7 @@ class PreOCF(ABC):
         # Convert world bitstring into pysmt boolean assertions
         world_symbols = self.symbolize_bitvec(world)
         # Check each conditional for violation: antecedence ∧ ¬consequence
-        for idx, cond in self.conditionals.items():
+        for position, cond in enumerate(self.conditionals.values()):
             solver = Solver(name="z3")
             # Add world constraints
             for sym in world_symbols:
@@ -499,7 +499,7 @@ class PreOCF(ABC):
             # Add violation constraint
             solver.add_assertion(cond.make_A_then_not_B())
             if solver.solve():
-                rank += self._impacts[idx - 1]
+                rank += self._impacts[position]
         return rank
 
     # smallest rank of any world that satisfies formula
@@ -968,16 +968,13 @@ class RandomMinCRepPreOCF(PreOCF):
         self._optimizer.set(priority="pareto")
         self._optimizer.add(*self._csp)
         assert self.conditionals is not None
-        [
-            self._optimizer.minimize(z3.Int(f"eta_{i}"))
-            for i in range(1, len(self.conditionals) + 1)
-        ]
+        [self._optimizer.minimize(z3.Int(f"eta_{i}")) for i in self.conditionals]
         if self._optimizer.check() == sat:
             assert self.conditionals is not None
             m = self._optimizer.model()
+            # impact vector in the order of the conditionals (eta variables are named by key)
             self._impacts = [
-                int(str(m.eval(z3.Int(f"eta_{i}"))))
-                for i in range(1, len(self.conditionals) + 1)
+                int(str(m.eval(z3.Int(f"eta_{i}")))) for i in self.conditionals
             ]
         else:
             raise ValueError("no solution found for random min c rep")
@@ -995,13 +992,13 @@ class RandomMinCRepPreOCF(PreOCF):
         assert self.conditionals is not None, "conditionals required for c_vec2ocf"
         rank = 0
         world_symbols = self.symbolize_bitvec(world)
-        for idx, cond in self.conditionals.items():
+        for position, cond in enumerate(self.conditionals.values()):
             solver = Solver(name="z3")
             for sym in world_symbols:
                 solver.add_assertion(sym)
             solver.add_assertion(cond.make_A_then_not_B())
             if solver.solve():
-                rank += self._impacts[idx - 1]
+                rank += self._impacts[position]
         return rank
 
     # ------------------------------------------------------------------
